@@ -19,7 +19,7 @@ PLUG = str(Path(__file__).resolve().parents[1] / "plugins" / "kill_ibm.py")
 
 def make_conf(d, sc, out_name, start=0):
     conf = rf.base_config(
-        start=start, stop=sc["N"] * sc["dt"], dt=sc["dt"], forcing_file=d / "f.nc", release_file=d / "r.rls",
+        start=start, stop=sc["N"] * sc["dt"], dt=sc["dt"], forcing_file=d / "f_*.nc", grid_file=d / "f_000.nc", release_file=d / "r.rls",
         out_file=d / out_name, advection=sc.get("adv", "EF"), output_period=sc["p"] * sc["dt"], numrec=sc["numrec"],
         reference=0, instance_variables=("pid", "X", "Y", "Z", "age", "temp"),
     )
@@ -42,17 +42,23 @@ def make_conf(d, sc, out_name, start=0):
 
 
 def write_inputs(d, sc):
+    """forcing split over two files: frames at 0 and mid in f_000.nc, the last frame in f_001.nc, so that a
+    restart between mid and the end starts up with its two bracketing frames in different files"""
     imax, jmax, N = 16, 8, 2
     T = sc["N"] * sc["dt"]
-    times = [0, T // 2 if (T // 2) % sc["dt"] == 0 else sc["dt"], T + sc["dt"]]
-    times = sorted(set(times))
-    u = np.zeros((len(times), N, jmax, imax - 1))
-    temp = np.zeros((len(times), N, jmax, imax))
-    for k in range(len(times)):
-        u[k, 0] = sc.get("u", 0.2) * (1 + k)
-        u[k, 1] = sc.get("u", 0.2) * (2 + k)
-        temp[k] = 5.0 + k
-    rf.write_roms(d / "f.nc", imax=imax, jmax=jmax, N=N, times=times, u=u, extra={"temp": temp}, h=100.0)
+    mid = (sc["N"] // 2) * sc["dt"] or sc["dt"]
+    times = sorted(set([0, mid, T + sc["dt"]]))
+
+    def fields(k):
+        u = np.zeros((1, N, jmax, imax - 1)); temp = np.zeros((1, N, jmax, imax))
+        u[0, 0] = sc.get("u", 0.2) * (1 + k); u[0, 1] = sc.get("u", 0.2) * (2 + k); temp[0] = 5.0 + k
+        return u, temp
+    groups = [times[:-1], times[-1:]]
+    k = 0
+    for fi, g in enumerate(groups):
+        us, ts = zip(*[fields(k + j) for j in range(len(g))])
+        k += len(g)
+        rf.write_roms(d / f"f_{fi:03d}.nc", imax=imax, jmax=jmax, N=N, times=g, u=np.concatenate(us), extra={"temp": np.concatenate(ts)}, h=100.0)
     rf.write_release(d / "r.rls", sc["rows"])
 
 
@@ -81,6 +87,8 @@ def run_split_and_restarts(d, sc):
     cold = [records_of([p]) for p in cold_files]
     out = {}
     for r in range(len(cold_files) - 1):
+        if sc.get("restart_only") is not None and r != sc["restart_only"]:
+            continue
         wconf = make_conf(d, sc, f"warm{r}_{r + 1:03d}.nc")
         del wconf["time"]["start"]
         wconf["warm_start"] = {"filename": str(cold_files[r]), "variables": ["age", "temp"] + (["release_time"] if sc.get("pvars", True) else [])}
